@@ -21,7 +21,7 @@ VERUS_DIR = os.path.join(VERIF, 'verus')
 
 def parse_spec(path):
     """sections introduced by lines starting with '@'"""
-    secs = {'contract': '', 'loops': {}, 'never_loop': None, 'to_string': [], 'proofs': [], 'subst': []}
+    secs = {'contract': '', 'loops': {}, 'never_loop': None, 'to_string': [], 'proofs': [], 'subst': [], 'prologue': ''}
     if not os.path.exists(path):
         raise X.LostAnchor('contract file missing: ' + path)
     cur = None
@@ -37,6 +37,8 @@ def parse_spec(path):
         arg = head[1] if len(head) > 1 else ''
         if kind == '@contract':
             secs['contract'] = text
+        elif kind == '@prologue':
+            secs['prologue'] = text
         elif kind == '@loop':
             secs['loops'][arg.strip()] = text
         elif kind == '@never_loop':
@@ -139,13 +141,33 @@ class GroupBuild:
         self.parts.append(('const', None, name, new.strip() + '\n'))
         self.listing.append('### const %s (%s)\n%s\n' % (name, rel, X.listing(orig, new, name)))
 
+    def alias(self, rel, name):
+        s = self.src(rel)
+        (a, kw, o, c) = s.find_alias(name)
+        orig = s.src[a:c + 1]
+        log = []
+        new = X.r8_visibility(X.drop_attrs(X.strip_comments(orig), log), log)
+        self.parts.append(('type', None, name, new.strip() + '\n'))
+        self.listing.append('### type alias %s (%s)\n%s\n' % (name, rel, X.listing(orig, new, name)))
+
+    def impl(self, rel, header_pat, title=None):
+        """copy a whole (small) impl block verbatim, R1/R8 applied"""
+        s = self.src(rel)
+        (a, kw, o, c) = s.find_impl(header_pat)
+        orig = s.src[a:c + 1]
+        log = []
+        new = X.r8_visibility(X.drop_attrs(X.strip_comments(orig), log), log)
+        new = X.r1_format(new, log)
+        self.parts.append(('impl', None, title or header_pat, new.strip() + '\n'))
+        self.listing.append('### impl /%s/ (%s)\n%s\n%s\n' % (header_pat, rel, '\n'.join('  - ' + l for l in log), X.listing(orig, new, header_pat)))
+
     def fn(self, unit, rel, name, spec=None, impl=None, nth=0, stub=False, wrap_impl=None, props=(), resname='res'):
         secs = parse_spec(os.path.join(VERUS_DIR, 'contracts', spec)) if spec else {
-            'contract': '', 'loops': {}, 'never_loop': None, 'to_string': [], 'proofs': [], 'subst': []}
+            'contract': '', 'loops': {}, 'never_loop': None, 'to_string': [], 'proofs': [], 'subst': [], 'prologue': ''}
         log = []
         orig, new = X.emit_fn(self.src(rel), name, impl=impl, nth=nth, contract=secs['contract'],
                               loops=secs['loops'], never_loop=secs['never_loop'], to_string=secs['to_string'],
-                              proofs=secs['proofs'], stub=stub, wrap_impl=wrap_impl, log=log,
+                              proofs=secs['proofs'], prologue=secs['prologue'], stub=stub, wrap_impl=wrap_impl, log=log,
                               subst=secs['subst'], resname=resname)
         kind = 'stub' if stub else 'fn'
         self.parts.append((kind, unit, '%s::%s' % (rel, name), new))
@@ -219,6 +241,14 @@ class GroupBuild:
                             break
                     k += 1
                 sig = ' '.join(inner[fm.start():k].split())
+                if re.search(r'[(,]\s*_\s*:', sig):
+                    cnt = [0]
+
+                    def _nm(mm):
+                        cnt[0] += 1
+                        return '%s_p%d:' % (mm.group(1), cnt[0])
+                    sig = re.sub(r'([(,]\s*)_\s*:', _nm, sig)
+                    log.append('R9 anonymous `_` parameters of %s named _pN (Verus rejects `_` parameters)' % fm.group(1))
                 mname = fm.group(1)
                 seen.add(mname)
                 contract = '\n'.join(secs.get(mname, []))
